@@ -406,8 +406,8 @@ pub fn property() -> Property {
         assumptions: &["maximality is asserted only on undirected storage (greedy/maximum matching use neighbors(), i.e. outgoing edges, on directed storage; the property says direction is ignored for validity)"],
         both_profiles: false,
         subs: vec![
-            sub("matching/validity+maximum", 100_000, 3_000_000, m_strategy, m_run),
-            sub("flow/ford_fulkerson", 100_000, 3_000_000, f_strategy, f_run),
+            sub("matching/validity+maximum", 3_000_000, 30_000_000, m_strategy, m_run),
+            sub("flow/ford_fulkerson", 3_000_000, 30_000_000, f_strategy, f_run),
         ],
     }
 }
